@@ -260,6 +260,9 @@ def curated_core(rng, with_tokens=True):
     if with_tokens:
         gs.append(mk_grammar("x12", [("P0", seq(cap("T", "token", grp("once", alt(seq(ref("Comment"), lit("x")), ref("Ident")))), grp("star", cap("R", "tokens", grp("once", alt(seq(ref("Comment"), lit("(")), ref("Ident")))))),
                                       [F("T", "token"), F("R", "tokens")])], ks=(0, 1, -1)))
+    # ONE capture of several tokens into a numeric slice: every captured token is an element of its own
+    gs.append(mk_grammar("x13", [("P0", seq(cap("N", "int8s", grp("once", seq(ref("Int"), ref("Int")))), grp("star", cap("N", "int8s", grp("once", seq(lit("("), ref("Int"))))), grp("opt", cap("S", "string", ref("Ident")))),
+                                  [F("N", "int8s"), F("S", "string")])], ks=(0, 1, -1)))
     # a nullable production inside an optional group that fails after it (nothing consumed, captures pending)
     gs.append(mk_grammar("x3", [("P0", seq(grp("opt", seq(cap("L", "node", {"op": "prod", "p": "P1"}), lit("!"))), cap("V", "string", ref("Ident"))), [F("L", "node", "P1"), F("V", "string")]),
                                  ("P1", grp("star", cap("M", "strings", lit("("))), [F("M", "strings")])], ks=(0, 1, 2, -1)))
@@ -289,7 +292,8 @@ def curated_core(rng, with_tokens=True):
     # explicit EOF
     gs.append(mk_grammar("e0", [("P0", seq(grp("plus", cap("W", "strings", ref("Ident"))), grp("once", alt(lit(";"), ref("EOF")))), [F("W", "strings")])], trailing=True))
     gs.append(mk_grammar("e1", [("P0", seq(cap("A", "string", ref("Ident")), grp("opt", cap("B", "strings", ref("Int"))), grp("once", alt(seq(lit("!"), ref("EOF")), ref("EOF"), lit("(")))), [F("A", "string"), F("B", "strings")])], trailing=True, ks=(0, 1, -1)))
-    extra_inputs = {"x11": ["#c# y", "#c# x y", " y", "#c#y !", "#c# 7", "#a# #b# y", "y"], "x12": ["#c# y", "#c# x y", "y #c# ( z", "#c# x #d# z"],
+    extra_inputs = {"x13": ["3 4", "12 70", "3 4 ( 7", "7 300", "3", "1 2 x"],
+                    "x11": ["#c# y", "#c# x y", " y", "#c#y !", "#c# 7", "#a# #b# y", "y"], "x12": ["#c# y", "#c# x y", "y #c# ( z", "#c# x #d# z"],
                     "x9": ["x y !", "x ! y !", "x ! y", "7 ! 7 x", "x ! 7 y ! ( z", "x"], "x10": ["x y !", "x ! y", "x", "7 7 !", "x ! x !"],
                     "x5": ["A b", "a B Xy", "XY xy A", "A Q", "b q", "B b a A"], "x6": ["a b )", "a b (", "a b", "a b ( )"],
                     "x7": ["a b ) x", "a b ( x", "a b", "a b ) ( )", "x"], "x8": ["#k# x #c#", "x", "#k#", "( #k# x", " #a##b# x ( #c#"]}
